@@ -42,7 +42,8 @@ where
     where
         A: LWEInfos,
     {
-        let (data, scratch) = self.take_vec_znx(infos.n().into(), 1, infos.size());
+        // An LWE of dimension n stores n + 1 coefficients (body and mask), as `LWE::alloc` does.
+        let (data, scratch) = self.take_vec_znx((infos.n() + 1).into(), 1, infos.size());
         (
             LWE {
                 base2k: infos.base2k(),
@@ -137,7 +138,7 @@ where
     {
         let (data, scratch) = self.take_mat_znx(
             infos.n().into(),
-            infos.dnum().0.div_ceil(infos.dsize().0) as usize,
+            infos.dnum().into(),
             infos.rank_in().into(),
             (infos.rank_out() + 1).into(),
             infos.size(),
